@@ -187,7 +187,7 @@ class SshHostKeyDSSBase(SshHostKeyBase):
     def _parse_host_key(cls, parser):
         for param_name in ['p', 'q', 'g', 'y']:
             parser.parse_ssh_mpint(param_name)
-            if parser[param_name] <= 0:
+            if parser[param_name] <= (1 if param_name == 'p' else 0):
                 raise InvalidValue(parser[param_name], cls, param_name)
 
         public_key = PublicKey.from_params(PublicKeyParamsDsa(
@@ -248,7 +248,7 @@ class SshHostKeyRSABase(SshHostKeyBase):
     def _parse_host_key(cls, parser):
         parser.parse_ssh_mpint('e')
         parser.parse_ssh_mpint('n')
-        if parser['e'] <= 0 or parser['n'] <= 0:
+        if parser['e'] <= 0 or parser['n'] <= 1:
             raise InvalidValue(parser['n'], cls, 'n')
 
         public_key = PublicKey.from_params(PublicKeyParamsRsa(
